@@ -44,6 +44,8 @@ HINTS = {
     "bools": ("Sequence[bool]", "boolean[]", [[True], [False, True]]),
     "rot": ("Rotation2d", "struct:Rotation2d", [{"rot": 0.0}, {"rot": 0.5}, {"rot": 1.0}]),
     "trs": ("list[Translation2d]", "struct:Translation2d[]", [[{"tr": [1.0, 2.0]}], [], [{"tr": [0.0, 0.0]}, {"tr": [3.0, -1.0]}]]),
+    # a mutable struct: the getter may hand out the same instance every time, updated in place
+    "cs": ("ChassisSpeeds", "struct:ChassisSpeeds", [{"cs": [1.0, 0.0, 0.5]}, {"cs": [0.0, 2.0, 0.0]}, {"cs": [-1.5, 0.25, 3.0]}]),
     None: (None, None, None),
 }
 UNTYPED_POOLS = [
@@ -76,6 +78,15 @@ def gen_config(rng, prop, tier="quick"):
                     r["override"] = "marker"
                     r["base_default"] = rng.choice([-1, True, "base", 9.5])
                 resets.append(r)
+        if rng.random() < (0.3 if prop == "C10" else 0.08):
+            # diamond: Root declares the marker, the base listed SECOND redeclares it (another default, or a plain attribute);
+            # Python's MRO makes the redeclaration win over what the first-listed base merely inherits
+            if rng.random() < 0.65:
+                resets.append({"attr": "rd", "default": rng.choice([1.5, "right", 9]), "inherited": False, "override": None, "diamond": True,
+                               "base_default": rng.choice([0.0, "root", -1]), "swap": rng.random() < 0.5})
+            else:
+                plain.append({"attr": "pd", "default": rng.choice(["keep", 4]), "shadows_marker": False, "diamond": True, "base_default": rng.choice([0, "root"]),
+                              "swap": rng.random() < 0.5})
         for j in range(1 if rng.random() < 0.6 else 0):
             a = {"attr": f"p{j}", "default": rng.choice([0, "x", False]), "shadows_marker": False}
             if rng.random() < 0.25:
@@ -146,7 +157,7 @@ def gen_config(rng, prop, tier="quick"):
 
 
 def _gen_fb(rng, j, owner="comp"):
-    hint = rng.choice(["int", "float", "bool", "str", "floats", "ints", "strs", "bools", "rot", "trs", None, None])
+    hint = rng.choice(["int", "float", "bool", "str", "floats", "ints", "strs", "bools", "rot", "trs", "cs", None, None])
     name = rng.choice([f"get_v{j}", f"v{j}", f"get_state{j}", f"is_ok{j}"])
     fb = {"name": name, "key": (rng.choice([f"k{j}", f"sub/key{j}", "Name With Space" + str(j), f"get_k{j}", f"get_{name}"]) if rng.random() < 0.35 else None), "hint": hint,
           "inplace": False, "constant": rng.random() < 0.25, "quoted_hint": rng.random() < 0.25}
@@ -158,8 +169,8 @@ def _gen_fb(rng, j, owner="comp"):
     rng.shuffle(fb["values"])
     if fb["constant"]:
         fb["values"] = fb["values"][:1]
-    if isinstance(fb["values"][0], list) and rng.random() < 0.5:
-        fb["inplace"] = True       # the getter returns the same list object every time, updated in place
+    if (isinstance(fb["values"][0], list) or hint == "cs") and rng.random() < 0.5:
+        fb["inplace"] = True       # the getter returns the same list / struct object every time, updated in place
     return fb
 
 
@@ -524,7 +535,7 @@ def generate(seed, prop, tier, index=0):
         for _ in range(rng.choice([0, 0, 1, 2, 3])):
             if allfb:
                 owner, fb = rng.choice(allfb)
-                if fb["hint"] in ("rot", "trs"):
+                if fb["hint"] in ("rot", "trs", "cs"):
                     continue
                 key = ("/robot/" if owner == "robot" else f"/components/{owner}/") + fb_key(fb)
                 pool = HINTS[fb["hint"]][2] if fb["hint"] is not None else [v for t, vs in UNTYPED_POOLS if t == fb["nt_type"] for v in vs]
@@ -575,7 +586,7 @@ def _machine_states_source(prefix, machine, flavour):
 def build_sources(cfg):
     """Returns (robot_source, {module_name: source}) for the generated robot and its autonomous package."""
     L = ["import magicbot", "from magicbot import will_reset_to, feedback, tunable, state, timed_state, default_state", "from collections.abc import Sequence",
-         "from wpimath.geometry import Rotation2d, Translation2d", "",
+         "from wpimath.geometry import Rotation2d, Translation2d", "from wpimath.kinematics import ChassisSpeeds", "",
          "class Dep:", "    pass", ""]
     cls_of = {c["name"]: (c.get("clone_of") or c["name"]).upper() for c in cfg["components"]}
     for c in cfg["components"]:
@@ -614,9 +625,26 @@ def build_sources(cfg):
             L += _machine_states_source(nm, c["machine"], "sm")
             L.append("")
             continue
+        dia_r = [r for r in c["resets"] if r.get("diamond")]
+        dia_p = [a for a in c["plain_attrs"] if a.get("diamond")]
         inh = [r for r in c["resets"] if r["inherited"]]
-        own = [r for r in c["resets"] if not r["inherited"] or r.get("override") == "marker"]
+        own = [r for r in c["resets"] if (not r["inherited"] or r.get("override") == "marker") and not r.get("diamond")]
         shadow = [a for a in c["plain_attrs"] if a.get("shadows_marker")]
+        dia_bases = ""
+        if dia_r or dia_p:
+            L.append(f"class {nm.upper()}Root:")
+            for r in dia_r:
+                L.append(f"    {r['attr']} = will_reset_to({_lit(r['base_default'])})")
+            for a in dia_p:
+                L.append(f"    {a['attr']} = will_reset_to({_lit(a['base_default'])})")
+            L += ["", f"class {nm.upper()}Left({nm.upper()}Root):", "    pass", "", f"class {nm.upper()}Right({nm.upper()}Root):"]
+            for r in dia_r:
+                L.append(f"    {r['attr']} = will_reset_to({_lit(r['default'])})")
+            for a in dia_p:
+                L.append(f"    {a['attr']} = {_lit(a['default'])}")
+            L.append("")
+            swap = any(x.get("swap") for x in dia_r + dia_p)
+            dia_bases = f"{nm.upper()}Left, {nm.upper()}Right" if not swap else f"{nm.upper()}Right, {nm.upper()}Left"
         if inh or shadow:
             L.append(f"class {nm.upper()}Base:")
             for r in inh:
@@ -624,9 +652,9 @@ def build_sources(cfg):
             for a in shadow:
                 L.append(f"    {a['attr']} = will_reset_to({_lit(a['base_default'])})")
             L.append("")
-            L.append(f"class {nm.upper()}({nm.upper()}Base):")
+            L.append(f"class {nm.upper()}({nm.upper()}Base{', ' + dia_bases if dia_bases else ''}):")
         else:
-            L.append(f"class {nm.upper()}:")
+            L.append(f"class {nm.upper()}({dia_bases}):" if dia_bases else f"class {nm.upper()}:")
         if c["inject_dep"]:
             L.append("    dep0: Dep")
         if c["inject_comp"]:
@@ -634,7 +662,8 @@ def build_sources(cfg):
         for r in own:
             L.append(f"    {r['attr']} = will_reset_to({_lit(r['default'])})")
         for a in c["plain_attrs"]:
-            L.append(f"    {a['attr']} = {_lit(a['default'])}")
+            if not a.get("diamond"):
+                L.append(f"    {a['attr']} = {_lit(a['default'])}")
         L.append("    def __init__(self):")
         L.append("        SIM.ctor(self, type(self).__name__)")
         for h in ("setup", "on_enable", "on_disable"):
@@ -829,6 +858,15 @@ class _Sim:
         if fb["hint"] == "trs":
             from wpimath.geometry import Translation2d
             v = [Translation2d(x["tr"][0], x["tr"][1]) for x in v]
+        if fb["hint"] == "cs":
+            from wpimath.kinematics import ChassisSpeeds
+            if fb.get("inplace"):
+                box = self.boxes.get(site)
+                if box is None:
+                    box = self.boxes[site] = ChassisSpeeds()
+                box.vx, box.vy, box.omega = v["cs"]        # same object, new contents
+                return box
+            return ChassisSpeeds(*v["cs"])
         if fb.get("inplace"):
             box = self.boxes.setdefault(site, [])
             box[:] = v          # same list object every iteration, contents replaced in place
@@ -1028,7 +1066,12 @@ class _Sim:
                     dec = self.struct_subs.get(key)
                     if dec is not None:
                         val = dec[0].get()
-                        val = {"rot": round(val.radians(), 9)} if dec[1] == "rot" else [{"tr": [t.X(), t.Y()]} for t in val]
+                        if dec[1] == "rot":
+                            val = {"rot": round(val.radians(), 9)}
+                        elif dec[1] == "cs":
+                            val = {"cs": [val.vx, val.vy, val.omega]}
+                        else:
+                            val = [{"tr": [t.X(), t.Y()]} for t in val]
                     fb[key] = list(val) if isinstance(val, (list, tuple)) else val
             self.log.append(["wait", n, w.now_us(), alarm, fb, None])
             self._pending = (n, alarm)
@@ -1196,6 +1239,9 @@ def execute(plan, trace=False):
             elif fb["hint"] == "trs":
                 from wpimath.geometry import Translation2d
                 sim.struct_subs[key] = (ntcore.StructArrayTopic(nt.getTopic(key), Translation2d).subscribe([]), "trs")
+            elif fb["hint"] == "cs":
+                from wpimath.kinematics import ChassisSpeeds
+                sim.struct_subs[key] = (ntcore.StructTopic(nt.getTopic(key), ChassisSpeeds).subscribe(ChassisSpeeds()), "cs")
     for c in cfg["components"]:
         if c.get("machine"):
             for st in c["machine"]["states"]:
